@@ -94,10 +94,18 @@ func checkProgram(src string) {
 			fatal(err)
 		}
 		if strings.HasPrefix(ans, "ok ") {
-			f := strings.Fields(ans)
-			res.Count("reloc", line, f[len(f)-1] != "0")
-			if f[len(f)-1] != "0" {
+			f := strings.Fields(ans) // ok <#fn> <#pos> <#moved> <twin shape> <bodies are the model's>
+			moved := len(f) > 3 && f[3] != "0"
+			res.Count("reloc", line, moved)
+			if moved {
 				res.Dist("reloc-checked-with-moved-code")
+			}
+			if len(f) > 5 && f[4] == "1" && f[5] == "1" {
+				// the pair is one the universal theorem speaks about (covered_reloc): hypotheses evaluated, conclusion proved
+				res.Dist("reloc-covered-by-universal-theorem")
+			} else {
+				res.Disagree(lib.Disagreement{Stream: "reloc-universal", Input: replayInput{Source: src}, Model: ans,
+					Impl: "the program must have the shape the universal theorem assumes (checkTwin) and the real optimizer's bodies must be the model's (bodiesAreModel)"})
 			}
 		} else {
 			res.Count("reloc", line, true)
